@@ -335,6 +335,10 @@ function allCases(thorough) {
     for (const withScripts of [0, 1, 2]) {
       out.push({ group: 'runtime-extra', name: `extra|${JSON.stringify(extra)}|${withScripts}`, make: () => ({ files: [['m', withScripts === 2 ? '<wxs module="m">exports.f=1</wxs><a b="{{m.f}}"/>' : '<a b="{{x}}"/>']], scripts: withScripts === 1 ? [['s', 'exports.f=1']] : [], extra }) })
     }
+    // a second group with an extra runtime script of its own is imported (import_group): both scripts end up in one prelude
+    for (const e2 of ['foo();', 'var b1=(\n2);', '// c2', 'if(x){y()};']) {
+      out.push({ group: 'runtime-extra', name: `extra|${JSON.stringify(extra)}|imports|${JSON.stringify(e2)}`, make: () => ({ files: [['m', '<a b="{{x}}"/>']], scripts: [], extra, import_extra: e2 }) })
+    }
   }
   const toks = thorough ? TOKENS : TOKENS_CORE
   const maxLen = thorough ? 3 : 3
